@@ -180,7 +180,11 @@ theorem C04_gen_tokens_a :
   decide +kernel
 
 theorem C04_gen_tokens_b :
-    (WireTokens.expected.drop 20).all (WireTokens.agree Gen.C04.streams) = true := by
+    ((WireTokens.expected.drop 20).take 20).all (WireTokens.agree Gen.C04.streams) = true := by
+  decide +kernel
+
+theorem C04_gen_tokens_c :
+    (WireTokens.expected.drop 40).all (WireTokens.agree Gen.C04.streams) = true := by
   decide +kernel
 
 /-- every regenerated stream has an expectation, all version-guard constants are below 10, and the
